@@ -155,15 +155,21 @@ def check_case(rows, tier, seed, rep=None, want=None):
         v, g, H, ok, reg, ev, eg, eH = ref_jet(r, wrt, pts, Pn, params)
         m &= ok & reg
         refs.append((g, eg))
-    b = Builder(params=params)
-    try:
-        es = [b.build(r) for r in rows]
-    except Exception as ex:
-        fails.add("exception:build:" + type(ex).__name__, msg=str(ex)[:200])
-        return fails
     from optyx.core.expressions import Constant
 
-    es = [e if isinstance(e, Expression) else Constant(e) for e in es]
+    # two builds: fresh objects per row, and shared objects (identical sub-recipes are ONE object across the rows,
+    # as when the user keeps `q = quadratic_form(x, Q)` and uses it in objective and constraints)
+    builds = []
+    for shared in (False, True):
+        bb = Builder(params=params, share_scalars=shared)
+        try:
+            ee = [bb.build(r) for r in rows]
+        except Exception as ex:
+            fails.add("exception:build:" + type(ex).__name__, msg=str(ex)[:200])
+            return fails
+        builds.append((bb, [e if isinstance(e, Expression) else Constant(e) for e in ee]))
+    b, es = builds[0]
+    bS, esS = builds[1]
     idx = np.flatnonzero(m)
     if rep:
         rep.states += 1
@@ -195,8 +201,19 @@ def check_case(rows, tier, seed, rep=None, want=None):
                 fns.append(("CompiledExpression.gradient", lambda x, c=ce: np.asarray(c.gradient(x), dtype=float).reshape(1, -1)))
             except Exception as ex:
                 fails.add("exception:compile_gradient:" + type(ex).__name__, V=vlab, msg=str(ex)[:200])
+        # shared objects: compile each row alone first (warms per-node memos), then the whole list, then again
+        try:
+            VS = bS.variables_for(vn)
+            for e1 in esS:
+                autodiff.compile_jacobian([e1], VS)
+            jS = autodiff.compile_jacobian(esS, VS)
+            fns.append(("shared-objects:" + jS.__name__, lambda x, f=jS: np.asarray(f(x), dtype=float)))
+            jS2 = autodiff.compile_jacobian(esS, VS)
+            fns.append(("shared-objects-recompiled:" + jS2.__name__, lambda x, f=jS2: np.asarray(f(x), dtype=float)))
+        except Exception as ex:
+            fails.add("exception:compile_jacobian-shared:" + type(ex).__name__, V=vlab, msg=str(ex)[:200])
         if rep:
-            rep.transitions += len(fns)
+            rep.transitions += len(fns) + len(esS)
             for lab, _ in fns:
                 rep.outcomes["path:" + lab] += 1
         for lab, fn in fns:
